@@ -24,7 +24,17 @@ ModeSet == {k \in 1..3 : Modes[k] \in DOMAIN Ev.modes}
 Report(name, issues) == PrintT(<<"CASEFAIL", ToJson([line |-> l, ep |-> Ev.ep, clause |-> name, issues |-> issues])>>)
 Clause(name, holds) == IF holds THEN TRUE ELSE Report(name, {})
 
+\* forests far too large to be taken apart here hold only values both formats return exactly as written, so "the
+\* same forest came back" is equality of the two projections; the harness logs their fingerprints
+FpCase ==
+    \A k \in ModeSet :
+       /\ Clause("write-" \o Modes[k], M(Modes[k]).write = "ok")
+       /\ M(Modes[k]).write = "ok" =>
+             /\ Clause("read-" \o Modes[k], M(Modes[k]).read = "ok")
+             /\ M(Modes[k]).read = "ok" => Clause("roundtrip-" \o Modes[k], M(Modes[k]).fp_after = Ev.fp_before)
+
 CheckCase ==
+    IF "fp_before" \in DOMAIN Ev THEN FpCase ELSE
     \* C08: a population serializes whenever each of its instances serializes on its own
     /\ \A k \in ModeSet : Clause("write-" \o Modes[k],
                                IF "singles" \in DOMAIN Ev
